@@ -67,6 +67,23 @@ def generate(prop, rng, seed, index, tier):
                'from_end': rng.random() < 0.3}
         if rng.random() < 0.3:
             src['short'] = [rng.choice([1, 2, 3, None]) for _ in range(rng.randrange(1, 4))]
+        if rng.random() < 0.2:
+            # the source opens the file by name and the writer's chunks are byte strings: cuts may fall inside a
+            # multi-byte character
+            alpha2 = alpha + ['é', '€', 'ß']
+            text2 = ''.join(rng.choice(alpha2) for _ in range(rng.randrange(1, 24))) + (d if rng.random() < 0.7 else '')
+            raw = text2.encode('utf-8')
+            cuts2 = sorted(rng.randrange(0, len(raw) + 1) for _ in range(rng.randrange(1, 8)))
+            ops = [{'t': 0.0, 'op': 'start'}]
+            prev, t2 = 0, 0.0
+            for c in cuts2 + [len(raw)]:
+                t2 += rng.choice(GRID)
+                ops.append({'t': t2, 'op': 'append', 'hex': raw[prev:c].hex()})
+                prev = c
+            src = {'type': 'textfile', 'by_path': True, 'pre_hex': '', 'delimiter': d, 'poll': rng.choice([0.25, 0.5, 1])}
+            if rng.random() < 0.3:
+                src['short'] = [rng.choice([1, 2, 3, None]) for _ in range(rng.randrange(1, 4))]
+            text = text2
         nrec = len(text.split(d))
         maxlat = max([x or 0 for x in sink.get('lat', [0])] + [0])
         sc = {'format': 1, 'family': 'files', 'property': 'C17', 'seed': seed, 'index': index, 'source': src,
@@ -141,11 +158,14 @@ def evaluate(prop, sc, want_trace=False):
     if s['type'] == 'textfile' and not V:
         d = s.get('delimiter', '\n')
         ops = [o for o in sc['ops'] if not o.get('skip')]
-        visible = s.get('pre', '') + ''.join(o['data'] for o in sorted(
+        visible = s.get('pre', '') + ''.join(o.get('data', '') for o in sorted(
             (o for o in ops if o['op'] == 'append'), key=lambda o: o['t']))
         # appends are applied in (t, position) order, the same order the executor uses
         order = sorted(enumerate(ops), key=lambda p: (p[1]['t'], p[0]))
-        visible = s.get('pre', '') + ''.join(o['data'] for _, o in order if o['op'] == 'append')
+        visible = s.get('pre', '') + ''.join(o.get('data', '') for _, o in order if o['op'] == 'append')
+        if s.get('by_path'):
+            visible = (bytes.fromhex(s.get('pre_hex', '')) + b''.join(bytes.fromhex(o['hex']) for _, o in order
+                                                                   if o['op'] == 'append')).decode('utf-8')
         startpos = len(s.get('pre', '')) if s.get('from_end') else 0
         body = visible[startpos:]
         expected = [r + d for r in body.split(d)[:-1]]
@@ -167,7 +187,13 @@ def evaluate(prop, sc, want_trace=False):
                                % (len(got), len(expected), expected[len(got)], body, d), node_op='from_textfile'))
         if len(expected) >= 2:
             out.probes['records>=2'] = 1
-            reads = [e[4] for e in ev if e[2] == 'cycle' and e[3] == 'read' and e[4]]
+            reads = [e[4] if isinstance(e[4], str) else e[4].decode('utf-8', 'replace')
+                     for e in ev if e[2] == 'cycle' and e[3] == 'read' and e[4]]
+            if s.get('by_path'):
+                out.probes['file_opened_by_name'] = 1
+                if any(isinstance(e[4], bytes) and e[4].decode('utf-8', 'ignore').encode() != e[4]
+                       for e in ev if e[2] == 'cycle' and e[3] == 'read' and e[4]):
+                    out.probes['read_ends_inside_a_multibyte_character'] = 1
             if any(not r.endswith(d) for r in reads):
                 out.probes['read_ends_inside_record'] = 1
             if len(d) > 1 and any(any(r.endswith(d[:j]) for j in range(1, len(d))) and not r.endswith(d) for r in reads):
@@ -272,13 +298,13 @@ def shrink_candidates(sc):
             yield c
     # merge adjacent appends
     for i in range(len(ops) - 1):
-        if ops[i]['op'] == 'append' and ops[i + 1]['op'] == 'append':
+        if ops[i]['op'] == 'append' and ops[i + 1]['op'] == 'append' and 'data' in ops[i] and 'data' in ops[i + 1]:
             c = clone()
             c['ops'][i]['data'] = ops[i]['data'] + ops[i + 1]['data']
             del c['ops'][i + 1]
             yield c
     for i, o in enumerate(ops):
-        if o['op'] == 'append' and len(o['data']) > 1:
+        if o['op'] == 'append' and len(o.get('data', '')) > 1:
             for cut in (len(o['data']) // 2, 1):
                 c = clone()
                 c['ops'][i]['data'] = o['data'][cut:]
